@@ -533,6 +533,29 @@ def gen_req_pair(rng, hist):
     raise RuntimeError("no applicable variant")
 
 
+def gen_obj_pair(rng, hist):
+    """single boundary-condition objects / grids taken from a pair of related requests"""
+    pair = gen_req_pair(rng, lambda *a: None)
+    if rng.random() < 0.25:
+        hist("obj-pair", "grid:" + "+".join(pair["variants"]))
+        return {"kind": "gridobj", "a": pair["a"]["grid"], "b": pair["b"]["grid"]}
+    na, nb = len(pair["a"]["grid"]["shape"]), len(pair["b"]["grid"]["shape"])
+    r = rng.random()
+    if r < 0.5:
+        ax = rng.randrange(min(na, nb))
+        up = rng.random() < 0.5
+        pa, pb, how = [ax, up], [ax, up], "same-place"
+    elif r < 0.8:
+        ax = rng.randrange(min(na, nb))
+        pa, pb, how = [ax, False], [ax, True], "low-vs-high"
+    else:
+        pa, pb, how = [rng.randrange(na), rng.random() < 0.5], [rng.randrange(nb), rng.random() < 0.5], "any"
+    if how != "same-place" and rng.random() < 0.5:
+        pair["b"] = copy.deepcopy(pair["a"])
+    hist("obj-pair", "bc:" + how)
+    return {"kind": "bcobj", "a": pair["a"], "b": pair["b"], "pick_a": pa, "pick_b": pb, "seed": pair["seed"]}
+
+
 # ---- leaves -------------------------------------------------------------------------------
 def gen_leaf_pair(rng, hist):
     P = (1 << 61) - 1
@@ -748,6 +771,52 @@ def real_req_pair(case):
     return out
 
 
+def real_obj_pair(case):
+    from harness.common import pygraph as G
+    from pde.tools.cache import hash_mutable
+    out = {}
+    if case["kind"] == "gridobj":
+        try:
+            a, b = make_grid(case["a"]), make_grid(case["b"])
+        except Exception as e:
+            return {"error": exc_class(e)}
+        out["hash_eq"] = hash_mutable(a) == hash_mutable(b)
+        out["ga"], out["gb"] = G.ser(a), G.ser(b)
+        out["sa"], out["sb"] = G.grid_spec(a), G.grid_spec(b)
+        out["sem_eq"] = bool(type(a) is type(b) and a.shape == b.shape and tuple(map(tuple, a.axes_bounds)) == tuple(map(tuple, b.axes_bounds))
+                             and list(a.periodic) == list(b.periodic))
+        return out
+    objs = []
+    for tag in ("a", "b"):
+        try:
+            grid, backend, info, kw = build_req(case[tag])
+        except Exception as e:
+            return {"error": f"{tag}:{exc_class(e)}"}
+        ax, up = case["pick_" + tag]
+        bc = kw["bcs"][ax].high if up else kw["bcs"][ax].low
+        objs.append((grid, info.rank_in, bc))
+    (ga, ra, ba), (gb, rb, bb) = objs
+    out["hash_eq"] = hash_mutable(ba) == hash_mutable(bb)
+    try:
+        gra, grb = G.ser(ba), G.ser(bb)
+        out["ga"], out["gb"] = gra, grb
+    except G.Unmodelled as e:
+        out["unmodelled"] = str(e)
+    if type(ba).__qualname__ in G.MODELLED_BC and type(bb).__qualname__ in G.MODELLED_BC:
+        out["sa"], out["sb"] = G.bc_spec(ba), G.bc_spec(bb)
+    # the function the object denotes: which ghost cells it sets to what
+    sha = (ga.dim,) * ra + ga._shape_full
+    shb = (gb.dim,) * rb + gb._shape_full
+    try:
+        da, db = rnd_data(case["seed"], sha), rnd_data(case["seed"], shb)
+        ba.set_ghost_cells(da)
+        bb.set_ghost_cells(db)
+        out["sem_eq"] = bool(sha == shb and arr_close(da, db))
+    except Exception as e:
+        out["error"] = "apply:" + exc_class(e)
+    return out
+
+
 def real_leaf_pair(case):
     from harness.common import pygraph as G
     from pde.tools.cache import hash_mutable, objects_equal
@@ -927,6 +996,8 @@ def pair_worker(case):
         return real_nobc_pair(case)
     if k == "deco":
         return real_deco(case)
+    if k in ("bcobj", "gridobj"):
+        return real_obj_pair(case)
     raise ValueError(k)
 
 
@@ -940,12 +1011,12 @@ def classify(model):
     if model and not model.get("cur"):
         if model.get("oldF1"):
             return KEY_F1
+        if model.get("oldD"):
+            return KEY_GRID
         if model.get("oldA"):
             return KEY_NEG
         if model.get("oldB"):
             return KEY_ARR
-        if model.get("oldD"):
-            return KEY_GRID
     return None
 
 
@@ -960,7 +1031,8 @@ def run_pairs(ctx, batch):
     n_interp = ctx.budget(500, 4000)
     n_nobc = ctx.budget(250, 2000)
     n_deco = ctx.budget(300, 3000)
-    cases = []
+    n_obj = ctx.budget(700, 6000)
+    cases = [gen_obj_pair(rng, ctx.hist) for _ in range(n_obj)]
     cases += [gen_req_pair(rng, ctx.hist) for _ in range(n_req)]
     cases += [gen_leaf_pair(rng, ctx.hist) for _ in range(n_leaf)]
     cases += [gen_interp_pair(rng, ctx.hist) for _ in range(n_interp)]
@@ -985,8 +1057,9 @@ def run_pairs(ctx, batch):
             req = batch.add("c04.replay_cache", {"cap": case["cap"], "ignore": {"f": case["ignore"], "g": case["ignore"]},
                                                  "events": res["events"]})
         elif "ga" in res:
-            if k == "req" and res.get("sa") and res.get("sb"):
-                req = batch.add("c04.speceq", {"kind": "req", "a": res["sa"], "b": res["sb"], "ga": res["ga"], "gb": res["gb"]})
+            if k in ("req", "bcobj", "gridobj") and res.get("sa") and res.get("sb"):
+                req = batch.add("c04.speceq", {"kind": {"req": "req", "bcobj": "bc", "gridobj": "grid"}[k], "a": res["sa"], "b": res["sb"],
+                                               "ga": res["ga"], "gb": res["gb"]})
             else:
                 req = batch.add("c04.keyeq", {"a": res["ga"], "b": res["gb"]})
         lh = None
@@ -1073,7 +1146,15 @@ def judge_pairs(ctx, pending, answers):
         if "shared" in res and res["shared"] != res["hash_eq"]:
             ctx.disagree("wrapper", cj, {"key_equal": res["hash_eq"]}, {"cached_objects_identical": res["shared"]},
                          "the cached method shares/does not share although the wrapper key says otherwise")
-        if k == "leaf" or not ok_built:
+        if k in ("bcobj", "gridobj") and ok_built and res["hash_eq"] and not res["sem_eq"]:
+            # not by itself a violation (no cached method is keyed by a single condition or grid), but the key is
+            # not faithful on these objects: reported as a broken tie unless the model agrees
+            if model is not None and not model["cur"]:
+                pass  # already reported as a key-relation disagreement
+            else:
+                ctx.disagree("object-key-faithful", cj, {"key_equal": True}, {"denote_same_function": False},
+                             "equal keys for objects that denote different functions")
+        if k in ("leaf", "bcobj", "gridobj") or not ok_built:
             if not ok_built:
                 ctx.hist("malformed", res["error"][:40])
             continue
@@ -1609,8 +1690,14 @@ def history_key(h, res):
     ops = h["ops"]
     last = ops[-1]
     kinds = [o["op"] for o in ops]
-    if last["op"] == "interpolate" and any(k in kinds for k in ("collection", "assign_full")) and "write" in kinds:
+    if last["op"] == "interpolate" and kinds[:-1].count("interpolate") >= 1 and any(k in kinds for k in ("collection", "assign_full")):
         return KEY_F2
+    if "bc" in last and isinstance(last["bc"], dict):
+        strip = lambda bc: {k: (v if isinstance(v, str) else {f: x for f, x in v.items() if f != "type"}) for k, v in bc.items()}
+        types = lambda bc: {k: (v if isinstance(v, str) else v["type"]) for k, v in bc.items()}
+        for o in ops[:-1]:
+            if isinstance(o.get("bc"), dict) and strip(o["bc"]) == strip(last["bc"]) and types(o["bc"]) != types(last["bc"]):
+                return KEY_F1
     if last["op"] in ("rate", "rhs", "solve") and "collection" in kinds and any(o["op"] == "pde" and any(v[0] == "field" for v in o.get("consts", {}).values()) for o in ops):
         return KEY_PDE
     if last["op"] == "interpolate":
@@ -1622,17 +1709,17 @@ def history_key(h, res):
 
 def run_histories(ctx):
     rng = ctx.rng
-    n_s = ctx.budget(220, 4000)
-    n_j = ctx.budget(12, 160)
-    n_new = ctx.budget(16, 64)
+    n_s = ctx.budget(150, 2400)
+    n_j = ctx.budget(8, 96)
+    n_new = ctx.budget(8, 48)
     hs = [gen_history(rng, ctx.hist) for _ in range(n_s)] + fixed_histories()
-    t0 = time.time()
+    t0, c0 = time.time(), _cpu()
     res = run_many("harness.c04", "hist_worker", hs, env={"NUMBA_DISABLE_JIT": "1"}, procs=16)
-    ctx.extra["t_hist_S"] = round(time.time() - t0, 1)
-    t0 = time.time()
+    ctx.extra["t_hist_S"] = [round(time.time() - t0, 1), round(_cpu() - c0, 1)]
+    t0, c0 = time.time(), _cpu()
     hj = [gen_history(rng, ctx.hist, jit=True) for _ in range(n_j)] + fixed_histories()[:2]
     resj = run_many("harness.c04", "hist_worker", hj, env={"NUMBA_DISABLE_JIT": "0"}, procs=16)
-    ctx.extra["t_hist_J"] = round(time.time() - t0, 1)
+    ctx.extra["t_hist_J"] = [round(time.time() - t0, 1), round(_cpu() - c0, 1)]
     for mode, hl, rl in (("S", hs, res), ("J", hj, resj)):
         for h, r in zip(hl, rl):
             if isinstance(r, str):
@@ -1651,9 +1738,10 @@ def run_histories(ctx):
                 ctx.monitor_fail(leg, hh, {"last_result_in_history": r["full"]}, {"same_call_in_fresh_interpreter": r["fresh"]},
                                  "history: " + str(history_key(hh, r).get("symptom")), key=history_key(hh, r))
     # a subset in really new interpreters (one history per process), validating the fork shortcut
+    t0, c0 = time.time(), _cpu()
     sub = [h for h, r in zip(hs, res) if "malformed" not in r][:n_new]
-    for start in range(0, len(sub), 16):
-        chunk = sub[start:start + 16]
+    for start in range(0, len(sub), 8):
+        chunk = sub[start:start + 8]
         full = run_many("harness.c04", "hist_exec_full", chunk, env={"NUMBA_DISABLE_JIT": "1"}, procs=16)
         fresh = run_many("harness.c04", "hist_exec_fresh", chunk, env={"NUMBA_DISABLE_JIT": "1"}, procs=16)
         for h, a, b in zip(chunk, full, fresh):
@@ -1662,6 +1750,7 @@ def run_histories(ctx):
             if not same_result(a, b):
                 ctx.monitor_fail("histories:new-interpreter", h, {"last_result_in_history": a}, {"same_call_in_fresh_interpreter": b},
                                  "history: " + str(history_key(h, None).get("symptom")), key=history_key(h, None))
+    ctx.extra["t_hist_new"] = [round(time.time() - t0, 1), round(_cpu() - c0, 1)]
 
 
 def fixed_histories():
@@ -1715,7 +1804,7 @@ def fixed_histories():
 
 def run_heap(ctx, batch):
     rng = ctx.rng
-    n = ctx.budget(600, 6000)
+    n = ctx.budget(400, 5000)
     cases = [gen_heap_case(rng, ctx.hist) for _ in range(n)]
     res = run_many("harness.c04", "heap_worker", cases, env={"NUMBA_DISABLE_JIT": "1"}, procs=16)
     pend = []
@@ -1754,25 +1843,74 @@ def _first_bad_is_rate(c, ref, read):
     return False
 
 
+def _cpu():
+    import resource
+    r = resource.getrusage(resource.RUSAGE_CHILDREN)
+    return r.ru_utime + r.ru_stime
+
+
 def run(ctx):
     from harness.common.lean import LeanBatch
     quiet()
+    legs = os.environ.get("C04_LEGS", "pairs,heap,histories").split(",")  # dev only: subset of the legs
     batch = LeanBatch(ctx.workdir)
-    t0 = time.time()
-    pending = run_pairs(ctx, batch)
-    ctx.extra["t_pairs_real"] = round(time.time() - t0, 1)
-    t0 = time.time()
-    heap = run_heap(ctx, batch)
-    ctx.extra["t_heap_real"] = round(time.time() - t0, 1)
-    t0 = time.time()
+    t0, c0 = time.time(), _cpu()
+    pending = run_pairs(ctx, batch) if "pairs" in legs else []
+    ctx.extra["t_pairs_real"] = [round(time.time() - t0, 1), round(_cpu() - c0, 1)]
+    t0, c0 = time.time(), _cpu()
+    heap = run_heap(ctx, batch) if "heap" in legs else []
+    ctx.extra["t_heap_real"] = [round(time.time() - t0, 1), round(_cpu() - c0, 1)]
+    t0, c0 = time.time(), _cpu()
     answers = batch.run()
-    ctx.extra["t_model"] = round(time.time() - t0, 1)
+    ctx.extra["t_model"] = [round(time.time() - t0, 1), round(_cpu() - c0, 1)]
     judge_pairs(ctx, pending, answers)
     judge_heap(ctx, heap, answers)
     t0 = time.time()
-    run_histories(ctx)
+    if "histories" in legs:
+        run_histories(ctx)
     ctx.extra["t_histories"] = round(time.time() - t0, 1)
     ctx.monitor_failures.sort(key=lambda m: len(json.dumps(m["case"], default=str)))
+
+
+def search(ctx, broken):
+    """failing-input search after a broken tie: the property monitor (cached call after another request vs a freshly
+    built one) on a larger fresh sample of request/interpolator/no-bc pairs, preferring the variants of the
+    disagreeing cases, plus the regression histories"""
+    rng = ctx.sub_rng("search")
+    nohist = lambda *a, **k: None
+    prefer = []
+    for d in broken:
+        c = d.get("case") if isinstance(d, dict) else None
+        if isinstance(c, dict) and c.get("kind") in ("req", "bcobj"):
+            prefer.append({"kind": "req", "a": c["a"], "b": c["b"], "variants": c.get("variants", []), "seed": c.get("seed", 1)})
+            prefer.append({"kind": "req", "a": c["b"], "b": c["a"], "variants": c.get("variants", []), "seed": c.get("seed", 1)})
+        elif isinstance(c, dict) and c.get("kind") in ("interp", "nobc"):
+            prefer.append(c)
+    cases = prefer[:400] + [gen_req_pair(rng, nohist) for _ in range(ctx.budget(2500, 10000))] \
+        + [gen_interp_pair(rng, nohist) for _ in range(600)] + [gen_nobc_pair(rng, nohist) for _ in range(300)]
+    res = run_many("harness.c04", "pair_worker", cases, env={"NUMBA_DISABLE_JIT": "1"}, procs=16)
+    found = []
+    for c, r in zip(cases, res):
+        if isinstance(r, str) or "error" in r or "cached_ok" not in r:
+            continue
+        ctx.monitor_evals += 1
+        if not r["cached_ok"] or (r.get("shared") and not r["sem_eq"]):
+            found.append({"leg": "search:" + c["kind"], "case": slim(c),
+                          "observed": {"result_of_second_request": r.get("observed"), "shared_object": r.get("shared")},
+                          "expected": {"fresh": r.get("expected")}, "what": "cached result differs from a fresh computation",
+                          "key": dict(GENERIC_KEY, call_site=c["kind"])})
+    found.sort(key=lambda m: len(json.dumps(m["case"], default=str)))
+    if found:
+        return found
+    hs = fixed_histories() + [gen_history(rng, nohist) for _ in range(120)]
+    rh = run_many("harness.c04", "hist_worker", hs, env={"NUMBA_DISABLE_JIT": "1"}, procs=16)
+    for h, r in zip(hs, rh):
+        if isinstance(r, dict) and "malformed" not in r and not r["same"]:
+            hh = r.get("shrunk", h)
+            found.append({"leg": "search:history", "case": hh, "observed": {"last_result_in_history": r["full"]},
+                          "expected": {"same_call_in_fresh_interpreter": r["fresh"]}, "what": "history: last result differs",
+                          "key": history_key(hh, r)})
+    return found
 
 
 def replay(ctx, rep):
